@@ -36,6 +36,7 @@ import (
 
 	"verifharness/common"
 	"verifharness/jqref"
+	"verifharness/samequery"
 )
 
 const rangeLimit = 40
@@ -620,7 +621,8 @@ func main() {
 	ctx.Res.Notes = append(ctx.Res.Notes,
 		fmt.Sprintf("phases: native calls + carrier swap %.0fs, of which driver %.0fs; builtin-jq %.0fs, laws %.0fs", tCalls.Sub(t0).Seconds(), driverTime.Seconds(), t2.Sub(t1).Seconds(), time.Since(t2).Seconds()),
 		"calls not made (see distribution skipped:*): string repeats above 100 kB, setpath indices in [20000, 2^29), Bessel orders |n| > 1000 — math.Jn runs a recurrence of n steps, so `gojq -n 'jn(1e12; 1.5)'` does not return in any reasonable time (observation, not judged by this check)")
-	jqref.Run(ctx) // jq-defined builtins against the jq 1.6 binary (package jqref)
+	samequery.Run(ctx) // natives with a per-query cache: a call inside a query that made other calls = the call alone
+	jqref.Run(ctx)     // jq-defined builtins against the jq 1.6 binary (package jqref)
 	ctx.Finish()
 }
 
